@@ -483,6 +483,12 @@ Definition select_rules (n : Z) (en : list Z) : list Z :=
 Definition select_in_set_order (n : Z) (en : list Z) : list Z :=
   filter (fun i => (0 <=? i) && (i <? n)) en.
 
+(* ---------- SecMetQualifier.add_domains over a history of calls: every call appends, in the order it lists them, the
+   domains whose name the qualifier does not hold yet (unique_domain_ids is only asked for membership) ---------- *)
+Definition add_domains (held : list Z) (batch : list Z) : list Z :=
+  fold_left (fun acc d => if existsb (Z.eqb d) acc then acc else acc ++ [d]) batch held.
+Definition add_domains_history (batches : list (list Z)) : list Z := fold_left add_domains batches [].
+
 Definition run_C17 (fn : Z) (l : list Z) : list Z :=
   match fn with
   | 1 => C13.Model.run_refine true l
@@ -567,6 +573,10 @@ Definition run_C17 (fn : Z) (l : list Z) : list Z :=
            end
          | None => bad_input
          end
+  | 21 => match dList (dList dZ) l with
+          | Some (batches, []) => eList (fun i => [i]) (add_domains_history batches)
+          | _ => bad_input
+          end
   | 20 => match l with
           | n :: r => match dList dZ r with Some (en, []) => eList (fun i => [i]) (select_rules n en) | _ => bad_input end
           | _ => bad_input
